@@ -8,6 +8,10 @@ bind  : spec -> code: every reported state of HapCalling (samples' posteriors as
         DenovoMCMC replaced by a stub whose trace has exactly the state's empirical posterior;
         code -> spec: real assemble runs (real MCMC, thresholds swept over [0,1]) with the per-sample traces
         captured; the emitted ALT / REFMASKED / GT / AFP / AOP / GP are validated by TraceHapCalling.tla.
+        Wide loci (impl/c13wide.py): generated populations of 70-140 samples with private haplotypes over 8-9 SNVs,
+        i.e. more than 127 and more than 255 reported ALT haplotypes, run through the real assemble tail (prescribed
+        posteriors) and through the real MCMC; validated as recorded events by the same trace clauses
+        (GtDotIffExcluded, GtAlleleNumberIsAltIndex, AltIffThreshold, AltOrder, RefMaskedIff, Afp/Aop).
 """
 import json
 import os
@@ -202,7 +206,10 @@ def main():
         "TLC enumerates every collection of per-sample posteriors (genotype bags with counts out of M, support <= maxsup) "
         "of each (ploidies, haplotypes, M) instance, each threshold in {0,1/8,1/4,1/2,3/4,1} (thorough: also 3/8,5/8,7/8) and every admissible ALT order; "
         "each (posteriors, threshold) instance is replayed into the unit functions and into the real assemble code path. "
-        "Non-trivial = instance with a masked reference, a '.' in some GT, >= 2 ALT alleles or a tie in ALT order."
+        "Non-trivial = instance with a masked reference, a '.' in some GT, >= 2 ALT alleles or a tie in ALT order. "
+        "Wide loci (more than 127 / more than 255 reported ALT haplotypes: 70-140 generated samples with private haplotypes over "
+        "8-9 SNVs) are beyond enumeration and are validated as recorded events of the real assemble tail and of real MCMC runs "
+        "by TraceHapCalling (GtDotIffExcluded, GtAlleleNumberIsAltIndex, AltIffThreshold, AltOrder, RefMaskedIff)."
     )
     if os.environ.get("VERIF_REPLAY"):
         return replay_file(ck, os.environ["VERIF_REPLAY"])
@@ -281,6 +288,8 @@ def main():
         "and the six dyadic thresholds; other thresholds and real posteriors are covered by the recorded assemble runs (seeded)",
         "threshold 0 is read relationally: exactly the haplotypes that occur in some sample's posterior are listed",
         "a masked reference may carry its posterior frequency or 0 in AFP/AOP/ACP",
+        "wide loci (> 127 / > 255 ALT) are sampled (seeded generator, counts in notes.wide_*), not enumerated; GP is not requested "
+        "for them (its G-ordered array has tens of thousands of entries per sample)",
     ]
     ck.finish()
 
@@ -314,10 +323,94 @@ def validate_events(ck, events, fname):
             if "reject" in p:
                 e = parts[i][p["reject"] - 1]
                 group(grouped, "trace-reject", {"site": "assemble", "clause": p["clause"]},
-                      {"clause": p["clause"], "event": e})
+                      {"clause": p["clause"], "locus": e.get("locus"), "n_samples": len(e["ps"]), "n_alt": len(e["out"]["alt"]),
+                       "theta": e["theta"], "argv": e.get("argv", "")[-200:], "event": e})
     for (kind, _), g in sorted(grouped.items()):
         ck.violation(kind, {"n_cases": g["n"], "examples": g["examples"][:2]}, key=g["key"])
     return sum(g["n"] for g in grouped.values())
+
+
+WIDE_THETAS = ["0.0625", "0.125", "0.2", "0.25", "0.3", "0.5", "0.75", "0.9", "1.0"]
+
+
+def wide_tasks(ck):
+    """loci with more than 127 (8 SNVs, 70-100 samples) and more than 255 (9 SNVs, 128-140 samples) reported ALT haplotypes"""
+    import random
+
+    rnd = random.Random(ck.seed * 31 + 13)
+    n = 4 if ck.tier == "quick" else 16
+    tasks = []
+    for i in range(n):
+        big = i % 2 == 1
+        t = {"op": "wide", "seed": ck.seed * 1000 + 500 + i, "index": i,
+             "n_snv": 9 if big else 8, "n_samples": rnd.randint(134, 140) if big else rnd.randint(70, 100), "dense": big,
+             "m": rnd.choice([16, 32]), "chains": rnd.choice([1, 2]),
+             "refmode": ["present", "absent", "low", "present"][i % 4],
+             # a low threshold (everything that occurs is listed: most alleles) and any other one
+             "thetas": [rnd.choice(WIDE_THETAS[:4]), rnd.choice(WIDE_THETAS[3:])]}
+        if i % 4 in (0, 3):
+            t["mcmc"] = [48, 16, rnd.choice(["0.125", "0.2", "0.25"])]      # one real-MCMC run on the same files
+            t["depth"] = 8
+        tasks.append(t)
+    return tasks
+
+
+def meeting(e):
+    """harness-side regime gauge only (no verdict): non-reference haplotypes with P(occurs) >= threshold in some sample"""
+    th = Fraction(e["theta"][0], e["theta"][1])
+    hit = set()
+    for p in e["post"]:
+        occ = {}
+        for g, c in p:
+            for h in set(g):
+                occ[h] = occ.get(h, 0) + c
+        hit |= {h for h, c in occ.items() if h != 0 and c > 0 and Fraction(c, e["m"]) >= th}
+    return len(hit)
+
+
+def wide_notes(ck, events):
+    wide = [e for e in events if e.get("wide")]
+    gauge = [meeting(e) for e in wide]
+    over127 = sum(1 for g in gauge if g > 127)
+    over255 = sum(1 for g in gauge if g > 255)
+    ck.note("wide_events", len(wide))
+    ck.note("wide_events_real_mcmc", sum(1 for e in wide if e["wide"] == "mcmc"))
+    ck.note("wide_events_over_127_alt", over127)
+    ck.note("wide_events_over_255_alt", over255)
+    ck.note("wide_events_refmasked", sum(1 for e in wide if e["out"]["masked"]))
+    ck.note("wide_events_with_dot_gt", sum(1 for e in wide if any(-1 in s["gt"] for s in e["out"]["samples"])))
+    ck.note("wide_max_samples", max([len(e["ps"]) for e in wide] or [0]))
+    ck.note("wide_max_alt", max([len(e["out"]["alt"]) for e in wide] or [0]))
+    ck.note("wide_max_gt_allele", max([a for e in wide for s in e["out"]["samples"] for a in s["gt"]] or [0]))
+    if not ck.violations and (over127 < 2 or over255 < 1):
+        ck.machinery_failure("the wide-locus generator did not reach the regime (events over 127 ALT: %d, over 255: %d)"
+                             % (over127, over255))
+    if wide:
+        e = wide[-1]
+        ck.sample({"kind": "recorded-wide-locus", "wide": e["wide"], "argv": e["argv"], "n_samples": len(e["ps"]), "k": e["k"], "m": e["m"],
+                   "theta": e["theta"], "n_alt": len(e["out"]["alt"]), "masked": e["out"]["masked"],
+                   "gt_first_samples": [s["gt"] for s in e["out"]["samples"][:12]]})
+    return wide
+
+
+def wide_corruptions(ck, wide):
+    """binding demonstration on wide loci: a listed allele numbered above 127 printed as '.', and an allele number
+    above 255 printed modulo 256, must both be rejected"""
+    bad = []
+    for lim, fn in ((127, lambda a: -1), (255, lambda a: a - 256)):
+        for e in wide:
+            hit = [(si, j) for si, s in enumerate(e["out"]["samples"]) for j, a in enumerate(s["gt"]) if a > lim]
+            if hit:
+                x = json.loads(json.dumps(e))
+                si, j = hit[0]
+                g = x["out"]["samples"][si]["gt"]
+                g[j] = fn(g[j])
+                x["out"]["samples"][si]["gt"] = sorted([a for a in g if a >= 0]) + [a for a in g if a < 0]
+                bad.append(x)
+                break
+    if len(bad) < 2 and not ck.violations:
+        ck.machinery_failure("could not build corrupted wide traces (no GT with an allele number above 127 / 255)")
+    return bad
 
 
 def trace_part(ck):
@@ -325,7 +418,12 @@ def trace_part(ck):
     nrun = 16 if tier == "quick" else 120
     data_dir = os.path.join(ck.wd, "data")       # copied by the spec -> code part
     tasks = [{"op": "programs", "seed": ck.seed * 1000 + i, "index": i, "data_dir": data_dir} for i in range(nrun)]
+    tasks += wide_tasks(ck)
+    import time
+
+    t0 = time.time()
     res = pool.map_tasks("impl.c13", tasks, mode="jit", nproc=min(env.NCPU, 6 if tier == "quick" else 12))
+    ck.note("seconds_recorded_runs", round(time.time() - t0, 1))
     events = []
     for t, rr in zip(tasks, res):
         if not rr["ok"]:
@@ -339,7 +437,9 @@ def trace_part(ck):
                 events.append(e)
     if not events:
         ck.machinery_failure("no program events recorded")
+    t0 = time.time()
     validate_events(ck, events, "trace.json")
+    ck.note("seconds_trace_validation", round(time.time() - t0, 1))
     ck.traces += len(events)
     ck.evaluations += len(events)
     ck.nontrivial += sum(1 for e in events if e["out"]["masked"] or any(-1 in s["gt"] for s in e["out"]["samples"])
@@ -348,6 +448,7 @@ def trace_part(ck):
     ck.note("recorded_events_refmasked", sum(1 for e in events if e["out"]["masked"]))
     ck.note("recorded_events_with_dot_gt", sum(1 for e in events if any(-1 in s["gt"] for s in e["out"]["samples"])))
     ck.sample({"kind": "recorded-assemble-locus", "event": events[0]})
+    wide = wide_notes(ck, events)
     # binding demonstration: corrupted recorded fields must be rejected
     bad = []
     for e in events:
@@ -367,6 +468,7 @@ def trace_part(ck):
             break
     if len(bad) < 3:
         ck.machinery_failure("could not build corrupted traces")
+    bad += wide_corruptions(ck, wide)
     tfb = os.path.join(ck.wd, "trace-corrupt.json")
     with open(tfb, "w") as fh:
         json.dump(bad, fh)
